@@ -695,6 +695,10 @@ def main():
     try:
         found, n, trunc = explore_controlled(a.tier, 120 if a.tier == 'quick' else 900)
         mine = [f for f in found if not a.prop or f['prop'] == a.prop]
+        if a.prop == 'C10':
+            # failure isolation: in a scenario with a failing task, other runnable tasks being held back or the run getting stuck
+            # IS the failure spreading (the monitors file it under C05/C11, which it also breaks)
+            mine += [dict(f, prop='C10', message='after a task failed: ' + f['message']) for f in found if f['prop'] in ('C05', 'C11') and 'fail' in f['scenario'].lower()]
         items.append(dict(name='explore:controlled-schedules', bounded=True,
                           bound=f'{len(scenarios(a.tier))} scenarios of <= 5 tasks, every completion order one task per wait (schedules run: {n}{", truncated by budget" if trunc else ""})',
                           violation=bool(mine), witness=mine[:3], other_properties=sorted({f['prop'] for f in found if f['prop'] != a.prop})))
